@@ -192,6 +192,7 @@ func (m *monitor) step(h util.Uint160, ip int, op opcode.Opcode) {
 					// loaded by native code: the method is the one the context starts in
 					e["m"], e["a"] = methodAt(ist[i].GetManifest(), ist[i].IP())
 					e["cs"] = m.lookup(f.hash)
+					e["nm"] = p.what // the native method that loads the context
 				}
 				if f.name == "M" {
 					f.meth = p.m
